@@ -88,7 +88,18 @@ pub fn act_flashloan(sim: &mut Sim, ctx: &mut Ctx) -> Option<Tx> {
     ixs.extend(inner);
     ixs.push(ix::end_flashloan(ma, u.authority, end_metas.clone()));
     // shape faults
-    match ctx.rng.below(14) {
+    match ctx.rng.below(16) {
+        11 => {
+            // an end that closes nothing: no start at all (optionally keep harmless inner ixs out)
+            ixs.truncate(start_pos);
+            ixs.push(ix::end_flashloan(ma, u.authority, end_metas.clone()));
+            sim.stats.fault("tx_flashloan_end_without_start");
+        }
+        12 => {
+            // a second end after the bracket has been closed
+            ixs.push(ix::end_flashloan(ma, u.authority, end_metas.clone()));
+            sim.stats.fault("tx_flashloan_duplicate_end");
+        }
         0 => {
             // end index pointing at itself / before / out of range / a non-end ix
             let bad = *ctx.rng.pick(&[start_pos as u64, 0, 99, (start_pos + 1) as u64, u64::MAX]);
@@ -471,6 +482,11 @@ pub fn act_bracket(sim: &mut Sim, ctx: &mut Ctx, kind: BracketKind) -> Option<Tx
                 }
                 sim.stats.fault("tx_bracket_second_start_other_account");
             }
+        }
+        16 => {
+            // a second end after the bracket has been closed
+            ixs.push(end.clone());
+            sim.stats.fault("tx_bracket_duplicate_end");
         }
         13 => {
             // a third party (not the receiver) signs the end
